@@ -2,4 +2,8 @@
 EXTENDS NtpExchange
 ThetasSmall == {0, 40, -40}
 ThetasTwo == {0, 40}
+\* IP: the client's end host attaches nothing to a response
+FwdNone == {"none"}
+\* SCION: every class of end-host forwarder stamp (end-to-end option 253)
+FwdAll == {"none", "inside", "before", "after", "bad"}
 =============================================================================
